@@ -4,6 +4,7 @@ import (
 	"errors"
 	"io"
 	"os"
+	"path/filepath"
 )
 
 const (
@@ -47,6 +48,9 @@ func MoveFile(srcPath, destPath string) (err error) {
 			if target, e := os.Stat(srcPath); e == nil && os.SameFile(target, destInfo) {
 				return errors.New("osutil: " + srcPath + " is a symbolic link to " + destPath)
 			}
+		} else if e == nil && linksThrough(srcPath, destInfo) {
+			// the same for a destination that is itself one of the links the source points through
+			return errors.New("osutil: " + srcPath + " is a symbolic link to " + destPath)
 		}
 	}
 	if err = os.Rename(srcPath, destPath); err == nil {
@@ -58,4 +62,24 @@ func MoveFile(srcPath, destPath string) (err error) {
 		return err
 	}
 	return os.Remove(srcPath)
+}
+
+// linksThrough reports whether the chain of symbolic links starting at linkPath passes through the link dest.
+func linksThrough(linkPath string, dest os.FileInfo) bool {
+	for hops := 0; hops < 40; hops++ {
+		target, err := os.Readlink(linkPath)
+		if err != nil {
+			return false
+		}
+		if !filepath.IsAbs(target) {
+			target = filepath.Join(filepath.Dir(linkPath), target)
+		}
+		if info, err := os.Lstat(target); err != nil {
+			return false
+		} else if os.SameFile(info, dest) {
+			return true
+		}
+		linkPath = target
+	}
+	return false
 }
